@@ -30,6 +30,21 @@ namespace Stk
 def setState (s : Stk) (f : Nat) (st : Option Bool) : Stk := { s with cfg := s.cfg.setState f st }
 def setFIFO (s : Stk) (b : Bool) : Stk := { s with cfg := s.cfg.setFIFO b }
 
+/-- `Stack.CanNest`: would a nested Stack currently be accepted? -/
+def CanNest (s : Stk) : Bool := !s.flag Gen.flag_nnest
+/-- what `stack.isNesting` counts: anything the converter accepts, and any value whose dynamic
+type is the native `Stack` (a zero-valued `Stack{}` included — the type switch sees the type) -/
+def countsAsNested : Val → Bool
+  | .stk _ _ _ => true
+  | .zstk .native => true
+  | _ => false
+/-- `Stack.IsNesting`: at least one element is a Stack or Stack alias -/
+def IsNesting (s : Stk) : Bool := s.xs.any countsAsNested
+/-- `Stack.SetPushPolicy` (id 0 / none removes the policy) -/
+def SetPushPolicy (s : Stk) (p : Option Nat) : Stk := if s.readOnly then s else { s with cfg := { s.cfg with ppf := p } }
+/-- `Stack.SetErr` (no read-only guard) -/
+def SetErr (s : Stk) (e : Option Nat) : Stk := { s with cfg := { s.cfg with err := e } }
+
 /-- `Stack.Cap`, `Stack.Avail`, `Stack.IsFull` on an initialised instance -/
 def Cap (s : Stk) : Int := Gen.Cap true s.cfg.cap
 def Avail (s : Stk) : Int := Gen.Avail true s.cfg.cap s.rawLen
